@@ -19,11 +19,20 @@ build() {
     echo "BUILD-FAILURE (not a property violation): $REPO with hooks does not build" ; tail -30 .build/build.log; exit 2
   fi
 }
+# free-running race monitor of C12 (separate -race binary: the cooperative scheduler's hand-offs are
+# happens-before edges and would blind the detector)
+build_race() {
+  (cd harness && CGO_ENABLED=1 go build -race -tags verif -overlay "$ROOT/.build/overlay.json" -o "$ROOT/bin/verif-race" ./cmd/verif) > .build/build-race.log 2>&1
+  if [ $? -ne 0 ]; then
+    echo "BUILD-FAILURE (not a property violation): race build failed"; tail -30 .build/build-race.log; exit 2
+  fi
+}
 cmd=${1:-}
 case "$cmd" in
-  build) build ;;
+  build) build; build_race ;;
   check)
     build
+    [ "$2" = "C12" ] && build_race
     tier=${3:-${VERIF_TIER:-quick}}
     exec "$ROOT/bin/verif" check "$2" --tier "$tier" ;;
   replay)
